@@ -129,9 +129,15 @@ package keepclient
 //@   calls append#3: requires $0 == found
 
 // ------------------------------------------------------- C03: verified reads
+// io.Reader (documented behaviour): Read delivers the next n <= len(p) bytes of
+// the reader's stream into p[:n] and nothing else; io.EOF is reported only
+// when the whole stream has been delivered.
 //@ iface io.Reader.Read
-//@   modifies mem:byte
+//@   modifies elems(p) ghost:stream
 //@   ensures 0 <= result0 && result0 <= len(p)
+//@   ensures cursor(self) == old(cursor(self)) + result0 && cursor(self) <= len(stream(self))
+//@   ensures string(p[0:result0]) == stream(self)[old(cursor(self)):cursor(self)]
+//@   ensures result1 == io.EOF ==> cursor(self) == len(stream(self))
 
 // Read: io.EOF is passed on only if the digest of everything read matches
 // Check; the bytes handed to the hash are exactly p[:n].
